@@ -664,6 +664,7 @@ type refEncCase struct {
 	Table            int // 0 std17, 1 optimal, 2.. enumerated shapes
 	Extra, DHTAfter  bool
 	SV1              bool
+	OneDHT           bool // all tables in one DHT segment
 	S                []int
 }
 
@@ -715,6 +716,7 @@ func refEncRun(a refEncCase, c *eng.Ctx) *eng.Fail {
 	opts.Td = a.Td
 	opts.Extra = a.Extra
 	opts.DHTAfter = a.DHTAfter
+	opts.OneDHT = a.OneDHT
 	freq := ref.T81Freq(samples, a.W, a.H, a.P, a.Pred, a.Td)
 	for _, t := range a.Td {
 		switch a.Table {
@@ -777,7 +779,7 @@ var refEncFn = eng.Reg("C13.refstream-libdecode", func(a refEncCase) *eng.Fail {
 })
 
 func c13(c *eng.Ctx) {
-	c.Rule("E1: (a) every stream of the C02 space decoded by the independent T.81 Annex H decoder; (b) reference-encoded conformant streams over predictor 1..7 x P 2..16 x comps {1,3} x Td assignments x 8 table shapes x {APPn/COM} x {DHT before/after SOF} x all images over a 4-symbol alphabet with <= 4 samples, decoded by lossless.Decode / lossless14sv1.Decode. distinct = distinct streams")
+	c.Rule("E1: (a) every stream of the C02 space decoded by the independent T.81 Annex H decoder; (b) reference-encoded conformant streams over predictor 1..7 x P 2..16 x comps {1,3} x Td assignments x 8 table shapes x {APPn/COM} x {DHT before/after SOF} x {one DHT segment per table, all tables in one segment} x all images over a 4-symbol alphabet with <= 4 samples, decoded by lossless.Decode / lossless14sv1.Decode. distinct = distinct streams")
 	c.Assume("reference T.81 encoder/decoder in /verif/harness/ref follow Annex H (self-validated: reference decode(reference encode(x)) = x on every case, counted)")
 	// (a)
 	llEnumerate(c, "C13.libstream-refdecode", llRefDecode, llRef)
@@ -787,6 +789,7 @@ func c13(c *eng.Ctx) {
 		td                 []int
 		extra, after, sv1  bool
 		w, h               int
+		onedht             bool
 	}
 	var jobs []job
 	tds1 := [][]int{{0}, {1}, {2}, {3}}
@@ -803,9 +806,16 @@ func c13(c *eng.Ctx) {
 	}
 	add := func(p, pred, nc, table int, td []int, v, maxN int) {
 		for _, s := range sizesUpTo(maxN) {
-			jobs = append(jobs, job{p, pred, nc, table, td, v&1 == 1, v&2 == 2, false, s[0], s[1]})
+			jobs = append(jobs, job{p, pred, nc, table, td, v&1 == 1, v&2 == 2, false, s[0], s[1], false})
 			if pred == 1 {
-				jobs = append(jobs, job{p, pred, nc, table, td, v&1 == 1, v&2 == 2, true, s[0], s[1]})
+				jobs = append(jobs, job{p, pred, nc, table, td, v&1 == 1, v&2 == 2, true, s[0], s[1], false})
+			}
+			// several tables: also all of them in one DHT segment
+			if nc == 3 && (td[0] != td[1] || td[1] != td[2]) {
+				jobs = append(jobs, job{p, pred, nc, table, td, v&1 == 1, v&2 == 2, false, s[0], s[1], true})
+				if pred == 1 {
+					jobs = append(jobs, job{p, pred, nc, table, td, v&1 == 1, v&2 == 2, true, s[0], s[1], true})
+				}
 			}
 		}
 	}
@@ -855,7 +865,7 @@ func c13(c *eng.Ctx) {
 			for i, x := range idx {
 				s[i] = al[x]
 			}
-			a := refEncCase{W: j.w, H: j.h, C: j.nc, P: j.p, Pred: j.pred, Td: j.td, Table: j.table, Extra: j.extra, DHTAfter: j.after, SV1: j.sv1, S: s}
+			a := refEncCase{W: j.w, H: j.h, C: j.nc, P: j.p, Pred: j.pred, Td: j.td, Table: j.table, Extra: j.extra, DHTAfter: j.after, SV1: j.sv1, OneDHT: j.onedht, S: s}
 			f := eng.Guard(func() *eng.Fail { return refEncRun(a, c) })
 			if f != nil && f.Key == "__skip__" {
 				sk++
